@@ -333,15 +333,31 @@ def check_constants(ir, rng, out):
     S = build_sig(ir)
     a, b = S.create(path=("p",)), S.flip().create(path=("q",))
     la, lb = list(S.flatten(a)), list(S.flip().flatten(b))
-    cand = [j for j in range(len(la)) if len(leaf_signal(la[j][2])) > 0 and not hasattr(la[j][2], "as_value")]
+    cand = [j for j in range(len(la)) if len(leaf_signal(la[j][2])) > 0]
     if not cand:
         return
     j = rng.choice(cand)
     sg = leaf_signal(la[j][2])
     mode = rng.choice(["equal", "mismatch", "const-in-vs-signal-out"])
-    ca, cb = Const(sg.init, sg.shape()), Const(sg.init, sg.shape())
-    if mode == "mismatch":
-        cb = Const(sg.init ^ 1, sg.shape())
+    spelling = "hdl.Const"
+    if hasattr(la[j][2], "as_value"):
+        # enum- and struct-shaped members: the constant is written the way such a value is written (a constant of
+        # the shape-castable shape, which is a view / data.Const and not an hdl.Const, or a bare enum member)
+        shape = la[j][2].shape()
+        mk = lambda bits: shape.from_bits(bits) if rng.random() < 0.5 else Const(shape.from_bits(bits), shape)
+        try:
+            ca, cb = mk(sg.init), mk(sg.init)
+            if mode == "mismatch":
+                cb = mk(sg.init ^ 1)
+        except Exception:
+            return              # (no member with these bits)
+        import enum as _enum
+        kind = lambda c: "bare-enum-member" if isinstance(c, _enum.Enum) else type(c).__name__
+        spelling = kind(ca) + "/" + kind(cb)
+    else:
+        ca, cb = Const(sg.init, sg.shape()), Const(sg.init, sg.shape())
+        if mode == "mismatch":
+            cb = Const(sg.init ^ 1, sg.shape())
     try:
         if mode == "const-in-vs-signal-out":
             # constant only on the input side
@@ -356,13 +372,14 @@ def check_constants(ir, rng, out):
         return
     m = Module()
     out["hist"]["const:" + mode] = out["hist"].get("const:" + mode, 0) + 1
+    out["hist"]["const-written-as:" + spelling] = out["hist"].get("const-written-as:" + spelling, 0) + 1
     try:
         wiring.connect(m, a, b)
         ok = True
     except wiring.ConnectionError:
         ok = False
     if mode == "equal" and not ok:
-        raise V("equal-constants-refused", path=list(la[j][0]))
+        raise V("equal-constants-refused", path=list(la[j][0]), written_as=spelling)
     if mode != "equal" and ok:
         raise V("corruption-accepted:" + mode, path=list(la[j][0]))
     if ok:
